@@ -16,3 +16,5 @@ pub mod summary;
 pub mod table;
 pub mod timestamp;
 pub mod value;
+#[cfg(msi_verif)]
+pub mod verif;
